@@ -218,7 +218,23 @@ func RunPipeline(seed int64, tier, driver, outDir string, n int, search bool, co
 			res.Failures = append(res.Failures, core.FailRec{Prop: "C17", Msg: msg, File: file})
 		}
 	}
-	res.Extra = map[string]any{"records": recs, "queries": qs, "queries_with_hits": qhits, "query_errors": qerrs, "cases_rotated_at_max": rotated, "backend_queries_compared": bkq, "stores_reopened_after_sync": reopBy}
+	// bursts against a write batch of one, then Sync, shutdown, restart
+	nbo := 24
+	if tier == "thorough" {
+		nbo = 400
+	}
+	boSeen := false
+	for i := 0; i < nbo; i++ {
+		fs, line := BatchOrderScenario(seed*100183 + int64(i))
+		res.Evaluations++
+		if len(fs) > 0 && !boSeen {
+			boSeen = true
+			file := filepath.Join(outDir, fmt.Sprintf("C17-seed%d-batchorder.bcase", seed))
+			os.WriteFile(file, []byte("# "+fs[0]+"\n"+line+"\n"), 0o644)
+			res.Failures = append(res.Failures, core.FailRec{Prop: "C17", Msg: fs[0] + " [" + line + "]", File: file})
+		}
+	}
+	res.Extra = map[string]any{"batch_order_scenarios": nbo, "records": recs, "queries": qs, "queries_with_hits": qhits, "query_errors": qerrs, "cases_rotated_at_max": rotated, "backend_queries_compared": bkq, "stores_reopened_after_sync": reopBy}
 	res.WallS = time.Since(t0).Seconds()
 	return res
 }
